@@ -130,11 +130,22 @@ class Custom2006Refined(Custom2006):
     message = 'refined error 2006'
 
 
+class CodeOnly2008(exc.JsonRpcError):
+    """a typed error that declares ONLY its code: the message is given where it is raised (`raise CodeOnly2008(message=...)`); it is a
+    registration for its code like any other"""
+    code = 2008
+
+
+class CodeOnlyChild2009(Custom2001):
+    """only the code is declared here, the message is inherited from a typed parent"""
+    code = 2009
+
+
 # the harness' own model of the global registry (not read from pjrpc)
 GLOBAL: Dict[int, Type[exc.JsonRpcError]] = {
     -32700: exc.ParseError, -32600: exc.InvalidRequestError, -32601: exc.MethodNotFoundError,
     -32602: exc.InvalidParamsError, -32603: exc.InternalError, -32000: exc.ServerError,
-    2001: Custom2001, 2002: Custom2002, 2003: Custom2003, 2004: Custom2004, 2005: Custom2005, 2006: Custom2006Refined, -32050: SrvRange, 3001: IndepA, 0: ZeroCode, 5000: CodedBase, 2101: SharedA,
+    2001: Custom2001, 2002: Custom2002, 2003: Custom2003, 2004: Custom2004, 2005: Custom2005, 2006: Custom2006Refined, -32050: SrvRange, 3001: IndepA, 0: ZeroCode, 5000: CodedBase, 2101: SharedA, 2008: CodeOnly2008, 2009: CodeOnlyChild2009,
 }
 
 BY_NAME: Dict[str, Type[exc.JsonRpcError]] = {
@@ -142,11 +153,11 @@ BY_NAME: Dict[str, Type[exc.JsonRpcError]] = {
     'MethodNotFoundError': exc.MethodNotFoundError, 'InvalidParamsError': exc.InvalidParamsError,
     'InternalError': exc.InternalError, 'ServerError': exc.ServerError, 'Custom2001': Custom2001, 'Custom2002': Custom2002,
     'Custom2003': Custom2003, 'Custom2004': Custom2004, 'Custom2005': Custom2005, 'Custom2006Refined': Custom2006Refined, 'QuotaError': QuotaError, 'SrvRange': SrvRange, 'PlainBase': PlainBase, 'CodedBase': CodedBase, 'IndepBase': IndepBase,
-    'IndepA': IndepA, 'ZeroCode': ZeroCode, 'MetaBase': MetaBase, 'SharedBase': SharedBase, 'SharedA': SharedA,
+    'IndepA': IndepA, 'ZeroCode': ZeroCode, 'MetaBase': MetaBase, 'SharedBase': SharedBase, 'SharedA': SharedA, 'CodeOnly2008': CodeOnly2008, 'CodeOnlyChild2009': CodeOnlyChild2009,
 }
 
 TYPED = ['ParseError', 'InvalidRequestError', 'MethodNotFoundError', 'InvalidParamsError', 'InternalError', 'ServerError',
-         'Custom2001', 'Custom2002', 'Custom2003', 'Custom2004', 'Custom2005', 'Custom2006Refined', 'SrvRange', 'IndepA', 'ZeroCode', 'SharedA']
+         'Custom2001', 'Custom2002', 'Custom2003', 'Custom2004', 'Custom2005', 'Custom2006Refined', 'SrvRange', 'IndepA', 'ZeroCode', 'SharedA', 'CodeOnlyChild2009']
 REGISTERED_CODES = sorted(GLOBAL)
 
 
